@@ -40,12 +40,19 @@ MODELLED = ('Segmentation.__init__ pixel path (_check_segment_numbers, bit depth
             '_get_pixels_by_frame, Image.get_raw_frame, frame.decode_frame (1-bit offset), io.ImageFileReader '
             'offset table + read_frame_raw length; pydicom pack_bits/unpack_bits re-modelled. Not modelled: '
             'geometry (plane sorting, taken as input), dataset attribute copying, codecs, file I/O.')
-STRATA = ['rt', 'rt_mf', 'rt_nofor', 'rt_encaps', 'rescale', 'malformed', 'odd', 'pack', 'frame_at', 'rhe']
+STRATA = ['rt', 'rt_mf', 'rt_nofor', 'rt_encaps', 'rescale', 'malformed', 'odd', 'pack', 'frame_at', 'rhe',
+          'rt_layout', 'rt_hist']
 RULE = ('rt*: rows x cols with every residue of rows*cols mod 8 incl. < 8 pixels, 1..5 planes x 1..4 segments, '
         'masks empty/full/sparse/per-segment-empty planes, dtype bool/uint8/uint16/float32/float64, label-map and '
         'stacked layouts (2-D/3-D/4-D), BINARY/FRACTIONAL/LABELMAP (sparse and > 255 segment numbers), '
         'max_fractional_value in {1,2,3,100,255}, omit_empty_frames on/off, implicit/explicit/RLE/JPEG-LS, '
         'workers 0 / ThreadPoolExecutor / 2, in-memory + segread + lazy segread, shuffled source positions; '
+        'rt_layout: the same mask handed over in every numpy memory layout (Fortran order, per-plane transposed view, '
+        'strided view of a larger buffer, negative strides, channel-first buffer viewed channel-last, read-only), '
+        'native and RLE, the caller\'s buffer overwritten after construction; rt_hist: a schedule of calls on each of '
+        'the three objects (in memory, segread, lazy segread): stacked read, combine_segments=True read, access of '
+        '.pixel_array (fills the decoded-array cache), get_stored_frame by number / by index, get_stored_frames, in '
+        'any order, so that every read entry point is exercised with a cold and with a warm cache; '
         'valid kinds: the model also evaluates its `valid` predicate and its specification (must both be true); malformed: every constructor and query guard violated once; pack/frame_at: pydicom packing, '
         'get_raw_frame/decode_frame/read_frame_raw on hand-made bit-packed images; '
         'non-trivial = at least one non-zero pixel read back (or a refusal); distinct by case hash')
@@ -58,6 +65,18 @@ TS = {'implicit': '1.2.840.10008.1.2', 'explicit': '1.2.840.10008.1.2.1',
       'rle': '1.2.840.10008.1.2.5', 'jpegls': '1.2.840.10008.1.2.4.80'}
 INT_DT = ['bool', 'uint8', 'uint16']
 FLT_DT = ['float32', 'float64']
+# numpy memory layouts of the mask handed to the constructor (same values, same shape, same dtype):
+#   C         C-contiguous
+#   F         np.asfortranarray (e.g. arrays from NIfTI readers)
+#   planeT    every plane is a transposed view (rows/columns swapped in memory), planes in sequence
+#   volT      transposed view of an (x, y, z[, s]) volume = all axes reversed in memory
+#   strided   every other element of a buffer twice as large along every axis
+#   neg       negative strides along every axis (a flipped view of a flipped copy)
+#   chanfirst 4-D only: (segments, planes, rows, cols) buffer viewed channel-last by moveaxis
+#   readonly  C-contiguous, writeable flag cleared
+MEM = ['C', 'F', 'planeT', 'volT', 'strided', 'neg', 'chanfirst', 'readonly']
+# steps of a history (kind rt_hist), applied in order to each of the three objects
+H_STACK, H_COMBINE, H_WARM, H_FRAMES, H_STORED_FRAMES, H_FRAMES_IDX = 0, 1, 2, 3, 4, 5
 
 
 def _open_findings():
@@ -242,7 +261,8 @@ def _valid_case(rng, kind, source='series', ts=None, big=False, force_ty=None):
     c = {'kind': kind, 'ty': ty, 'layout': layout, 'dtype': dtype, 'den': den, 'maxfrac': mf, 'omit': omit,
          'segs': segs, 'rows': rows, 'cols': cols, 'srows': rows, 'scols': cols, 'P': P, 'nsrc': P,
          'data': data, 'zrank': zrank, 'ts': ts, 'workers': workers, 'source': source, 'two_d': two_d,
-         'req': req, 'assert_missing': source == 'mf' and rng.random() < 0.8, 'byframe': source == 'mf'}
+         'req': req, 'assert_missing': source == 'mf' and rng.random() < 0.8, 'byframe': source == 'mf',
+         'mem': rng.choice(MEM[1:]) if rng.random() < 0.12 else 'C'}
     return c
 
 
@@ -389,6 +409,69 @@ def _d61(rng):
     return c
 
 
+def _nonzero(c):
+    return any(v for pl in c['data'] for px in pl for v in (px if isinstance(px, list) else [px]))
+
+
+def _layout_case(rng):
+    """a valid round trip whose input array is NOT C-contiguous (or is read-only); the buffer the
+    caller owns is overwritten after construction in half of the cases"""
+    while True:
+        ts = rng.choice(['implicit', 'explicit', 'explicit', 'explicit', 'rle'])
+        c = _valid_case(rng, 'rt_layout', source=rng.choice(['series', 'series', 'mf']), ts=ts)
+        if c['rows'] > 1 and c['cols'] > 1 and _nonzero(c):
+            break
+    c['mem'] = rng.choice([m for m in MEM[1:] if m != 'chanfirst' or c['layout'] == 'stack'])
+    c['mutate_after'] = rng.random() < 0.5
+    return c
+
+
+def _combine_status(c):
+    """what combine_segments=True must do, per source plane: 'ok' | 'overlap' (RuntimeError) |
+    'nonbinary' (ValueError) | 'ambiguous' (both defects in one plane: the order in which the frames of
+    one output plane are visited is not specified, either error may come first)"""
+    exp = _expected(c)
+    top = c['maxfrac'] if c['ty'] == 'FRACTIONAL' else 1
+    out = []
+    for pl in exp:
+        if c['ty'] == 'LABELMAP':
+            out.append('ok')
+            continue
+        S = len(c['segs'])
+        nb = [k for k in range(S) if c['ty'] == 'FRACTIONAL' and any(px[k] not in (0, top) for px in pl)]
+        ov = any(sum(1 for k in range(S) if k not in nb and px[k] == top and top > 0) > 1 for px in pl)
+        out.append('ambiguous' if nb and ov else 'nonbinary' if nb else 'overlap' if ov else 'ok')
+    return out
+
+
+def _hist_case(rng):
+    """a valid object and a schedule of calls: stacked read, combined read, access of .pixel_array
+    (warms the decoded-array cache), single stored frames by number / by index, get_stored_frames"""
+    while True:
+        ts = rng.choice([None, None, None, 'rle'])
+        c = _valid_case(rng, 'rt_hist', source=rng.choice(['series', 'series', 'mf']), ts=ts)
+        if c['P'] >= 2 and _nonzero(c):
+            break
+    if rng.random() < 0.5:
+        c['omit'] = False
+    if c['byframe']:
+        c['assert_missing'] = True
+    u = rng.random()
+    if u < 0.35:
+        h = [H_WARM, rng.choice([H_COMBINE, H_COMBINE, H_FRAMES]), H_STACK]
+    elif u < 0.55:
+        h = [rng.choice([H_COMBINE, H_FRAMES, H_FRAMES_IDX]), H_WARM, H_COMBINE, H_FRAMES, H_STORED_FRAMES]
+    else:
+        h = [rng.choice([H_STACK, H_COMBINE, H_WARM, H_FRAMES, H_STORED_FRAMES, H_FRAMES_IDX])
+             for _ in range(rng.randint(2, 5))]
+    if c['ty'] == 'FRACTIONAL' and c['maxfrac'] == 0:
+        c['maxfrac'] = 1
+    if 'ambiguous' in _combine_status(c):
+        h = [H_STACK if k == H_COMBINE else k for k in h]
+    c['hist'] = h
+    return c
+
+
 def _tame(c):
     """JPEG-LS cases: the installed pyjpegls fails ('destination buffer too small') on small
     noisy frames, a limitation of the codec plugin; keep these masks low-entropy (sparse, and
@@ -449,6 +532,15 @@ def gen_cases(rng, tier):
         cases.append(_odd(rng))
     for _ in range(6 * N):
         cases.append(_d61(rng))     # every value rounds to 0 (finding D61, fixed): all-empty fallback
+    for m in MEM[1:]:               # every layout at least once per run, then random ones
+        c = _layout_case(rng)
+        if m != 'chanfirst' or c['layout'] == 'stack':
+            c['mem'] = m
+        cases.append(c)
+    for _ in range(40 * N):
+        cases.append(_layout_case(rng))
+    for _ in range(50 * N):
+        cases.append(_hist_case(rng))
     # pydicom packing
     for k in list(range(0, 20)) + [rng.randint(20, 70) for _ in range(10 * N)]:
         cases.append({'kind': 'pack', 'px': [rng.choice([0, 1]) for _ in range(k)]})
@@ -506,7 +598,43 @@ def _np_array(c):
         a = a.astype(np.bool_)
     else:
         a = a.astype(c['dtype'])
-    return a
+    return _apply_mem(a, c.get('mem', 'C'))
+
+
+def _apply_mem(a, mem):
+    """the same array (values, shape, dtype) in another memory layout"""
+    import numpy as np
+    nd = a.ndim
+    if mem == 'C' or nd < 2:
+        return a
+    if mem == 'F':
+        b = np.asfortranarray(a)
+    elif mem == 'planeT':
+        # rows/columns axes: (0, 1) of a 2-D array, (1, 2) of a 3-D / 4-D one
+        ax = list(range(nd))
+        r = 0 if nd == 2 else 1
+        ax[r], ax[r + 1] = ax[r + 1], ax[r]
+        b = np.ascontiguousarray(a.transpose(ax)).transpose(ax)
+    elif mem == 'volT':
+        rev = list(range(nd))[::-1]
+        b = np.ascontiguousarray(a.transpose(rev)).transpose(rev)
+    elif mem == 'strided':
+        big = np.zeros(tuple(2 * k for k in a.shape), a.dtype)
+        big[...] = 1 if a.dtype == np.bool_ else 0      # filler that would show up if strides were ignored
+        b = big[tuple(slice(1, None, 2) for _ in a.shape)]
+        b[...] = a
+    elif mem == 'neg':
+        fl = tuple(slice(None, None, -1) for _ in a.shape)
+        b = np.ascontiguousarray(a[fl])[fl]
+    elif mem == 'chanfirst' and nd == 4:
+        b = np.moveaxis(np.ascontiguousarray(np.moveaxis(a, -1, 0)), 0, -1)
+    elif mem == 'readonly':
+        b = a.copy()
+        b.setflags(write=False)
+    else:
+        return a
+    assert b.shape == a.shape and b.dtype == a.dtype and np.array_equal(a, b)
+    return b
 
 
 def _sources(c):
@@ -555,6 +683,43 @@ def _read(obj, c, uids, rescale=False):
         return Err('OSError')
 
 
+def _history(obj, c, uids, nframes):
+    """apply the schedule c['hist'] to one object; one observation per step"""
+    import numpy as np
+
+    def frames(get):
+        return lambda: [np.asarray(get(k)).reshape(-1).tolist() for k in range(nframes)]
+
+    def combined():
+        if c['byframe']:
+            a = obj.get_pixels_by_source_frame(uids[0], c['req'], combine_segments=True,
+                                               assert_missing_frames_are_empty=c['assert_missing'])
+        else:
+            a = obj.get_pixels_by_source_instance([uids[j] for j in c['req']], combine_segments=True,
+                                                  assert_missing_frames_are_empty=c['assert_missing'])
+        a = np.asarray(a)
+        return a.reshape(a.shape[0], -1).tolist()
+    out = []
+    for k in c['hist']:
+        try:
+            if k == H_STACK:
+                r = _read(obj, c, uids)
+            elif k == H_COMBINE:
+                r = catch(combined)
+            elif k == H_WARM:
+                r = catch(lambda: np.asarray(obj.pixel_array).reshape(nframes, -1).tolist())
+            elif k == H_FRAMES:
+                r = catch(frames(lambda i: obj.get_stored_frame(i + 1)))
+            elif k == H_FRAMES_IDX:
+                r = catch(frames(lambda i: obj.get_stored_frame(i, as_index=True)))
+            else:
+                r = catch(lambda: np.asarray(obj.get_stored_frames()).reshape(nframes, -1).tolist())
+        except OSError:
+            r = Err('OSError')
+        out.append(r)
+    return out
+
+
 def _seg_case(c):
     import logging
     import warnings
@@ -592,12 +757,30 @@ def _seg_case(c):
     extras = []
     if not np.array_equal(arr, arr0):
         extras.append('input array was modified')
+    if c.get('mutate_after') and arr.flags.writeable:
+        # the caller re-uses its buffer: the stored object must not alias it
+        arr[...] = (~arr if arr.dtype == np.bool_ else 0)
+        base = arr
+        while base.base is not None and isinstance(base.base, np.ndarray):
+            base = base.base
+        if base.flags.writeable:
+            base[...] = (True if base.dtype == np.bool_ else 0)
     native = c['ts'] in ('implicit', 'explicit')
     nframes = int(seg.NumberOfFrames)
     meta = _meta(seg, c, uids)
     pdata = list(bytes(seg.PixelData)) if native else []
     if c['kind'] == 'rescale':
         return _read(seg, c, uids, rescale=True)
+    if c['kind'] == 'rt_hist':
+        buf = io.BytesIO()
+        try:
+            seg.save_as(buf)
+            raw = buf.getvalue()
+            eager = hd.seg.segread(io.BytesIO(raw))
+            lazy = hd.seg.segread(io.BytesIO(raw), lazy_frame_retrieval=True)
+        except Exception as e:     # noqa
+            return Err('write/read:' + type(e).__name__)
+        return [nframes, meta] + [_history(o, c, uids, nframes) for o in (seg, eager, lazy)]
     r_mem = _read(seg, c, uids)
     buf = io.BytesIO()
     try:
@@ -766,6 +949,9 @@ def coq_term(c):
     req = c['req']
     if k == 'rescale':
         return f"(run_rescaled {_cfg(c)} {inp} {zl(_perm(c))} {zl(req)})"
+    if k == 'rt_hist':
+        return (f"(run_hist {_cfg(c)} {inp} {zl(_perm(c))} {zl(req)} "
+                f"{'true' if c['byframe'] else 'false'} {'true' if c['assert_missing'] else 'false'} {zl(c['hist'])})")
     fn = 'run_seg_spec' if k.startswith('rt') else 'run_seg'
     return (f"({fn} {_cfg(c)} {inp} {zl(_perm(c))} {zl(req)} "
             f"{'true' if c['byframe'] else 'false'} {'true' if c['assert_missing'] else 'false'})")
@@ -843,6 +1029,8 @@ def oracle(c, out):
         if out != w:
             return 'rescaled read-back is not round_half_even(x*max)/max in float32'
         return None
+    if k == 'rt_hist':
+        return _oracle_hist(c, out, want)
     nframes, meta, pdata, r_mem, r_file, r_lazy, extras = out[:7]
     if c['byframe'] and not c['assert_missing']:
         # documented refusal: a requested frame number above every referenced frame
@@ -894,6 +1082,64 @@ def oracle(c, out):
     return None
 
 
+def _oracle_hist(c, out, want):
+    """every step of the schedule, on every object, must give what the input says - whatever was
+    called before (the decoded-array cache is an optimisation, not an observable)"""
+    nframes, meta = out[0], out[1]
+    if len(set(map(tuple, meta))) != len(meta) or nframes != len(meta):
+        return 'duplicate or miscounted stored frames'
+    se = _stored_expected(c)
+    want_frames = [se[tuple(m)] for m in meta]
+    exp = _expected(c)
+    status = _combine_status(c)
+    segs = c['segs']
+    want_comb = None
+    for r in c['req']:
+        j = r - 1 if c['byframe'] else r
+        st = status[j] if 0 <= j < len(status) else 'ok'
+        if st != 'ok':
+            want_comb = {'overlap': ['RuntimeError'], 'nonbinary': ['ValueError'],
+                         'ambiguous': ['RuntimeError', 'ValueError']}[st]
+            break
+    if want_comb is None:
+        n = c['rows'] * c['cols']
+        want_comb = []
+        for r in c['req']:
+            j = r - 1 if c['byframe'] else r
+            want_comb.append([sum(segs[q] for q, v in enumerate(px) if v) for px in exp[j]]
+                             if 0 <= j < len(exp) else [0] * n)
+    names = {H_STACK: 'stacked read', H_COMBINE: 'combine_segments=True read', H_WARM: '.pixel_array',
+             H_FRAMES: 'get_stored_frame(number)', H_STORED_FRAMES: 'get_stored_frames()',
+             H_FRAMES_IDX: 'get_stored_frame(index, as_index=True)'}
+    for nm, steps in zip(('in-memory', 'segread', 'lazy segread'), out[2:5]):
+        warm = False
+        for pos, (k, r) in enumerate(zip(c['hist'], steps)):
+            where = (f'{nm}, step {pos} ({names[k]}, decoded-array cache {"warm" if warm else "cold"}, '
+                     f'history {c["hist"][:pos]}; type {c["ty"]}, {nframes} frames)')
+            if k == H_COMBINE:
+                if isinstance(want_comb[0], str):
+                    if not (isinstance(r, Err) and r.kind in want_comb):
+                        return f'{where}: expected {" or ".join(want_comb)} (documented refusal), got {str(r)[:80]}'
+                elif isinstance(r, Err):
+                    return f'{where}: refused with {r}'
+                elif r != want_comb:
+                    o = next(i for i, (a, b) in enumerate(zip(r, want_comb)) if a != b) if len(r) == len(want_comb) else -1
+                    return f'{where}: label map of requested source #{o} differs from the input'
+            elif k == H_STACK:
+                if isinstance(r, Err):
+                    return f'{where}: refused with {r}'
+                if r != want:
+                    return f'{where}: read-back differs from the input'
+            else:
+                if isinstance(r, Err):
+                    return f'{where}: refused with {r}'
+                if r != want_frames:
+                    o = next((i for i, (a, b) in enumerate(zip(r, want_frames)) if a != b), -1)
+                    return f'{where}: stored frame {o + 1} is not the plane of (segment, source) {meta[o] if o >= 0 else "?"}'
+            warm = warm or k == H_WARM
+    return None
+
+
 def nontrivial(c, out):
     k = c['kind']
     if k in ('pack',):
@@ -906,6 +1152,8 @@ def nontrivial(c, out):
         return True
     if k == 'rescale':
         return any(v for pl in out for px in pl for v in px)
+    if k == 'rt_hist':
+        return _nonzero(c)
     r = out[3]
     return isinstance(r, Err) or any(v for pl in r for px in pl for v in px)
 
@@ -918,6 +1166,15 @@ def shrink(c):
     if c['kind'] in ('frame_at', 'rhe'):
         return
     P = c['P']
+    if c.get('mem', 'C') != 'C':
+        yield dict(c, mem='C')
+    if c.get('mutate_after'):
+        yield dict(c, mutate_after=False)
+    if c['kind'] == 'rt_hist':
+        h = c['hist']
+        for i in range(len(h)):
+            if len(h) > 1:
+                yield dict(c, hist=h[:i] + h[i + 1:])
     if c.get('workers'):
         yield dict(c, workers=0)
     if c['ts'] != 'explicit' and not (c['ty'] == 'BINARY' and c.get('which') == 'binary_encaps'):
